@@ -195,6 +195,9 @@ func (r *Run) Tripped(clause string) bool {
 // Broken reports whether so many unlisted violations have accumulated that scheduling more
 // work is pointless (the circuit breaker of DESIGN 2.1); the run then ends with what it has.
 func (r *Run) Broken() bool {
+	if os.Getenv("VERIF_NO_BREAKER") != "" {
+		return false
+	}
 	if r.TotalUnlisted() >= 60 {
 		r.mu.Lock()
 		r.extra["circuit_breaker"] = "opened: remaining work items were skipped"
